@@ -598,13 +598,44 @@ def gen_boundaries(rng):
     return out
 
 
-def generate(rng, tier):
-    n_sl, n_h, n_t = (160, 90, 4) if tier == "quick" else (6000, 3000, 60)
-    cases = gen_boundaries(rng)
+REQUIRED_SEED = 1101
+
+
+def required_stream():
+    rq = C.Rng(REQUIRED_SEED)
+    cases = gen_boundaries(rq)
     nofr = {"n": 0, "cols": [], "target": None, "index": "range", "col_order": []}
     cases += [{"kind": "crafted", "what": w, "frame": nofr} for w in CRAFTED]
     cases += [{"kind": "malformed", "what": w, "frame": nofr} for w in MALFORMED]
-    cases += [gen_handbuilt(rng, dtype=dt) for dt in TORCH_DT]          # every numeric backing in every run
+    cases += [gen_handbuilt(rq, dtype=dt) for dt in TORCH_DT]          # every numeric backing in every run
+    # the kinds sanity() requires that no boundary case happens to produce
+    d = make_desc(rq, ALL_STYPES, 4, target="numerical")
+    for v in ({"v": "catcols"}, {"v": "empty", "how": "slice"}, {"v": "empty", "how": "index"}, {"v": "empty", "how": "mask"},
+              {"v": "slice2", "a": 1, "c": 1, "d": 2}, {"v": "catrows", "parts": [{"v": "slice", "a": 2, "b": 4},
+                                                                                  {"v": "index", "idx": [0, 0]}]}):
+        cases.append({"kind": "saveload", "frame": d, "variant": v, "with_stats": True, "device": None})
+    for dt in ("float64", "float16"):                  # embedders that do not return float32
+        e = make_desc(rq, ["text_embedded", "image_embedded"], 3)
+        for c in e["cols"]:
+            c["emb_dtype"] = dt
+        cases.append({"kind": "saveload", "frame": e, "variant": {"v": "whole"}, "with_stats": True, "device": None})
+        cases.append({"kind": "history", "frame": e, "events": [{"e": "mat", "path": True}, {"e": "new", "path": True},
+                                                                {"e": "conv", "rows": [0, 2], "shift": False}]})
+    small = make_desc(rq, ["numerical"], 1)
+    st = lambda desc: {"frame": desc, "variant": {"v": "whole"}, "with_stats": True, "device": None}   # noqa: E731
+    cases.append({"kind": "reuse", "frame": d, "steps": [st(d), st(small), st(d)]})     # smaller after larger, larger after smaller
+    cases.append({"kind": "history", "frame": d, "events": [
+        {"e": "mat", "path": False, "device": "cpu"}, {"e": "mat", "path": True, "device": "torch.device"},
+        {"e": "new", "path": True, "device": "cpu"}, {"e": "derived", "op": {"t": "shuffle"}, "path": True, "device": "cpu"},
+        {"e": "conv", "rows": [1, 3], "shift": True}]})
+    return cases
+
+
+def generate(rng, tier):
+    n_sl, n_h, n_t = (160, 90, 4) if tier == "quick" else (6000, 3000, 60)
+    # The REQUIRED stream: deterministic (its own constant seed, independent of VERIF_SEED and of the tier).
+    # It alone satisfies every requirement of sanity(); the run's seed only drives the random stream after it.
+    cases = required_stream()
     for i in range(n_sl):
         if i % 8 == 3:
             cases.append(gen_featureless(rng))
